@@ -469,6 +469,42 @@ func (fr *Frame) enterLoop(li *loopInfo, in *State, edges []*State, preds []*ssa
 		vc.assume("(>= " + nclk + " " + old.heap["CLK"] + ")")
 		hs.heap["CLK"] = nclk
 	}
+	// the function's own ghost counters (`counts g callee`) may be bumped by
+	// any iteration: at the head they are only known not to have decreased
+	// (the loop invariants say the rest)
+	if vc.con != nil && fr.top {
+		done := map[string]bool{}
+		for _, c := range vc.con.Counts {
+			g := vc.ghostVar(c.Ghost)
+			if done[g] {
+				continue
+			}
+			// only a loop that contains a counted call site can bump the counter
+			counted := false
+			for blk := range li.body {
+				for _, in2 := range blk.Instrs {
+					if ci, ok := in2.(ssa.CallInstruction); ok {
+						if _, isB := ci.Common().Value.(*ssa.Builtin); !isB && calleeMatch(calleeName(ci.Common()), c.Callee) {
+							counted = true
+						}
+					}
+				}
+			}
+			if !counted {
+				continue
+			}
+			done[g] = true
+			if _, ok := in.heap[g]; !ok {
+				continue
+			}
+			if hs.heap[g] != in.heap[g] {
+				continue // already given a new version above
+			}
+			nv := vc.freshConst(g, "Int")
+			vc.assume("(>= " + nv + " " + in.heap[g] + ")")
+			hs.heap[g] = nv
+		}
+	}
 	for _, instr := range b.Instrs {
 		phi, ok := instr.(*ssa.Phi)
 		if !ok {
